@@ -81,7 +81,7 @@ class Real:
 
         def pyhalf(x):
             real.log.append((U.canon(x),))
-            return x // 2
+            return abs(x) // 2 * (1 if x >= 0 else -1)       # integer quotient, truncated like :%
 
         def pylt10(x):
             real.log.append((U.canon(x),))
@@ -478,12 +478,69 @@ def _shape(v):
     return shape_class(v)
 
 
-def run_chains(ctx, r):
-    """two-adverb chains compose left to right: v a1 a2 operand == {v a1 x} a2 operand"""
+CHAIN_MODELLED = {"+", "-", "*", ",", "&", "{x-y}", "{x,y}"}
+
+
+def chain_case(ctx, r, drv, verb, advs, a):
+    """v a1 a2 ... ak operand == {{{v a1 x} a2 x} ... } ak operand, and the Lean chain machine"""
+    from .c01 import num_shape
+    if pathological(a):
+        ctx.bump("skip:outside-reference")       # C01's known class (irregular nest stored as a rank>=2 object array)
+        return
+    name = r.bind(r.k(U.klit(a, False)))
+    tail = "".join(advs)
+    chain = f"{verb}{tail}{name}"
+    w = f"{verb}{advs[0]}x"
+    for adv in advs[1:-1]:
+        w = f"{{{w}}}{adv}x"
+    wrapped = f"{{{w}}}{advs[-1]}{name}"
+    st, v = guarded(lambda: r.k(wrapped), 200000)
+    if st != "ok":
+        ctx.bump("chain:wrapped-form-raises")     # outside the reference (e.g. Over with a monad)
+        return
+    want = U.canon(v)
+    st, v = guarded(lambda: r.k(chain), 200000)
+    got = U.canon(v) if st == "ok" else ('E', "exceeds the step budget" if st == "hang" else type(v).__name__)
+    ctx.count(("chain", chain, a))
+    ctx.bump("chain:compared" + (f":k={len(advs)}" if len(advs) > 2 else ""))
+    if got[0] == 'E' or not U.veq(want, got):
+        ctx.oracle_fail(f"chain:{verb}{tail}:{_shape(a)}", dict(text=f"{verb}{tail}{U.klit(a, False)}"),
+                        U.show(want), U.show(got) if got[0] != 'E' else f"raises {got[1]}",
+                        "chained adverbs must compose left to right: equal to the lambda-wrapped form "
+                        f"{{{w}}}{advs[-1]}a")
+        return
+    regular = num_shape(a) is not None or verb in (",", "{x,y}")   # (atomic verbs between rows of different length:
+    if drv and verb in CHAIN_MODELLED and U.int_only(a) and U.depth(a) >= 1 and regular:   # numpy broadcasts, C01)
+        lverb = "{-x}" if (verb == "-" and advs[0] == "'") else verb
+        if advs[0] == "'" and lverb == verb:
+            return
+        op = verb if verb in OPS2 else "-none-"
+        rep = drv.ask(f"chain {lverb} {op} {','.join(advs)} {U.to_wire(a)}")
+        if " impl=" not in rep:
+            return
+        impl = rep.split(" impl=")[1].split(" pinned=")[0]
+        ref = rep.split(" impl=")[0][len("ref="):]
+        if impl.startswith("ok:"):
+            iv = norm(U.from_wire(impl[3:].split(" log=")[0]))
+            if not U.veq(iv, norm(got)):
+                ctx.mismatch(f"Klong.C02 implChain vs chain_adverbs", dict(text=f"{verb}{tail}{U.klit(a, False)}"),
+                             U.show(iv), U.show(got))
+            elif ref.startswith("ok:") and not U.veq(norm(U.from_wire(ref[3:].split(" log=")[0])), iv):
+                ctx.mismatch(f"Klong.C02 refChain vs implChain", dict(text=f"{verb}{tail}{U.klit(a, False)}"),
+                             ref, impl)
+            else:
+                ctx.bump("model-agrees:chain")
+        elif impl.startswith("err"):
+            ctx.mismatch(f"Klong.C02 implChain vs chain_adverbs", dict(text=f"{verb}{tail}{U.klit(a, False)}"),
+                         "err", U.show(got))
+
+
+def run_chains(ctx, r, drv=None):
+    """chains compose left to right: v a1 a2 operand == {v a1 x} a2 operand"""
     # manual: "subsequent adverbs must be adverbs of monadic verbs, because the first verb-adverb
     # combination in a chain of adverbs forms a monad"
     firsts = ["/", "\\", ":'", "'"]
-    seconds = ["'", ":~", "\\~"]
+    seconds = ["'", ":~", "\\~", "@'"]
     verbs = ["+", "-", "*", ",", "&", "{x-y}", "{x,y}"]
     operands = [U.from_py(x) for x in ([1, 2, 3, 4], [[1, 2, 3], [4, 5, 6], [7, 8, 9]], [[1, 2], [3, 4]],
                                        [[5], [6, 7]], [3])]
@@ -492,25 +549,23 @@ def run_chains(ctx, r):
             continue
         if a2 in (":~", "\\~") and (a1 != "/" or verb not in (",", "&", "|", "+", "*")):
             continue                                # only chains whose definition has a fixpoint
-        name = r.bind(r.k(U.klit(a, False)))
-        chain = f"{verb}{a1}{a2}{name}"
-        wrapped = f"{{{verb}{a1}x}}{a2}{name}"
-        try:
-            want = U.canon(r.k(wrapped))
-        except Exception:
-            ctx.bump("chain:wrapped-form-raises")     # outside the reference (e.g. Over with a monad)
+        if a2 == "@'" and a1 not in ("/", ":'"):
             continue
-        try:
-            got = U.canon(r.k(chain))
-        except Exception as e:
-            got = ('E', type(e).__name__)
-        ctx.count(("chain", chain, a))
-        ctx.bump("chain:compared")
-        if got[0] == 'E' or not U.veq(want, got):
-            ctx.oracle_fail(f"chain:{verb}{a1}{a2}:{_shape(a)}", dict(text=f"{verb}{a1}{a2}{U.klit(a, False)}"),
-                            U.show(want), U.show(got) if got[0] != 'E' else f"raises {got[1]}",
-                            "chained adverbs must compose left to right: equal to the lambda-wrapped form "
-                            f"{{{verb}{a1}x}}{a2}a")
+        chain_case(ctx, r, drv, verb, [a1, a2], a)
+    # three and four adverbs
+    deep = [U.from_py(x) for x in ([[[1, 2], [3, 4]], [[5, 6]]], [[[1], [2, 3]]], [[1, 2], [3, 4]],
+                                   [[[1, 2, 3]], [[4], [5, 6]]], [1, [2, [3, [4], 5], 6], 7])]
+    longer = [["/", "'", "'"], ["\\", "'", "'"], [":'", "'", "'"], ["/", "'", ":~"], ["/", "'", "\\~"],
+              ["/", "'", "'", "'"], ["/", ":~", "'"], ["/", "'", "@'"]]
+    for advs, verb, a in itertools.product(longer, ["+", "-", ",", "&", "{x-y}", "{x,y}"], deep):
+        if (":~" in advs or "\\~" in advs) and verb not in (",", "&", "+"):
+            continue
+        chain_case(ctx, r, drv, verb, advs, a)
+    # only the first adverb may take the verb's operator shortcut: a later Over / Scan-Over works on the derived
+    # monad (which ignores its second argument), not on the operator
+    for advs, verb, a in itertools.product([[":'", "/"], [":'", "\\"]], ["+", "-", "*"],
+                                           [U.from_py([1, 2, 3, 4]), U.from_py([5]), U.from_py([2, 7])]):
+        chain_case(ctx, r, drv, verb, advs, a)
 
 
 def run_redefinition(ctx, r):
@@ -578,13 +633,13 @@ CONV_OPERANDS = [U.from_py(x) for x in (0, 1, 2, 3, 8, 17, 100, -3, 100000, 2.0,
                                         [2, 2, 1, 2], [1, [2, [3, [4], 5], 6], 7], [[1, 2], [3, 4]], [[1], [2, 3]],
                                         ["f", ["l", "at"], "ten"], "abc", "", "hello foo")] \
     + [U.C("a"), U.Y("foo"), ('D', [(U.I(1), U.I(2))])]
-WHILE_PREDS = ["{x<10}", "{x<100}", "{x<3}", "{x>0}", "{x<0}", "{0}", "{1}", "{#x}", "{x}", "{pylt10(x)}", '{""}', "{[]}",
+WHILE_PREDS = ["{x<10}", "{x<100}", "{x<3}", "{x>0}", "{x<0}", "{0}", "{1}", "{#x}", "{x}", "{pylt10(x)}", '{""}',
                "{x-10}"]
 WHILE_VERBS = ["{x*2}", "{x+1}", "{x-1}", "{1_x}", "{pyinc(x)}", "{x,x}"]
-WHILE_OPERANDS = [U.from_py(x) for x in (1, 0, 3, 5, 50, -2, 12, 1.5, [1, 2, 3], [7], [], "abc", "")]
+WHILE_OPERANDS = [U.from_py(x) for x in (1, 0, 3, 5, 50, -1, 12, 1.5, [1, 2, 3], [7], [], "abc", "")]
 CONV_MODELLED = {"{x:%2}", "{x&5}", "{:[x>3;x;x+1]}", "{,/x}", "{1_x}", "{x}", "{-x}", "{#x}", "{x+1}", "{x,x}",
                  "{x*2}", "{x-1}", "{x<10}", "{x<3}", "{x>0}", "{x<0}", "{0}"}
-STEP_CAP = 80
+STEP_CAP = 130
 
 
 def klong_true(t):
@@ -593,28 +648,40 @@ def klong_true(t):
     return c not in (('i', 0), ('r', 0.0), ('L', []), ('s', ""))
 
 
+def bounded(v):
+    """the definition's intermediate values stay small (a verb like {x,x} doubles its operand at every step)"""
+    import numpy as np
+    n = v.size if isinstance(v, np.ndarray) else len(v) if isinstance(v, (str, list, dict)) else 1
+    if n > 4000:
+        raise Diverges()
+    if isinstance(v, (int, np.integer)) and abs(int(v)) > 2 ** 40:
+        raise Diverges()            # (64-bit wrap-around is outside the property)
+    return v
+
+
 def matches(r, x, y):
     """Match, evaluated as a separate application on the real interpreter"""
     a, b = r.bind(x), r.bind(y)
     return bool(r.k(f"{a}~{b}"))
 
 
-def exp_convergence(r, adv, pred, verb, a):
-    """the manual's definitions written out as separate applications, at most STEP_CAP steps"""
+def exp_convergence(r, adv, pred, verb, a, cap):
+    """the manual's definitions written out as separate applications, at most `cap` steps"""
+    r.pred_list = False
     if adv == ":~":
         # "Find the fixpoint of f(a)": the first of f(a), f(f(a)), ... that f maps to a matching value
-        x = r.app1(verb, a)
-        for _ in range(STEP_CAP):
-            y = r.app1(verb, x)
+        x = bounded(r.app1(verb, a))
+        for _ in range(cap):
+            y = bounded(r.app1(verb, x))
             if matches(r, x, y):
                 return x
             x = y
         raise Diverges()
     if adv == "\\~":
         x, out = a, []
-        for _ in range(STEP_CAP):
+        for _ in range(cap):
             out.append(x)
-            y = r.app1(verb, x)
+            y = bounded(r.app1(verb, x))
             if matches(r, x, y):
                 return r.mklist(out)
             x = y
@@ -622,11 +689,14 @@ def exp_convergence(r, adv, pred, verb, a):
     if adv in ("w:~", "w\\~"):
         # "if a(b) is false, return b; else assign b::f(b) and start over" / collect the b that satisfy a
         b, out = a, []
-        for _ in range(STEP_CAP):
-            if not klong_true(r.app1(pred, b)):
+        for _ in range(cap):
+            t = r.app1(pred, b)
+            if U.canon(t)[0] == 'L':
+                r.pred_list = True
+            if not klong_true(t):
                 return r.mklist(out) if adv == "w\\~" else b
             out.append(b)
-            b = r.app1(verb, b)
+            b = bounded(r.app1(verb, b))
         raise Diverges()
     raise Skip()
 
@@ -642,6 +712,9 @@ def gen_convergence(ctx):
             for b in WHILE_OPERANDS:
                 cases.append(("w:~", pred, verb, b))
                 cases.append(("w\\~", pred, verb, b))
+    for b in WHILE_OPERANDS[:4]:                   # a predicate whose value is a list
+        cases.append(("w:~", "{[]}", "{x+1}", b))
+        cases.append(("w\\~", "{[]}", "{x+1}", b))
     if ctx.tier == "quick":
         ctx.rng.shuffle(cases)
         cases = cases[:700]
@@ -654,33 +727,50 @@ def run_convergence(ctx, r, drv):
     n_div = 0
     for adv, pred, verb, a in gen_convergence(ctx):
         val = r.k(U.klit(a, False))
-        name = r.bind(val)
         sym = adv[1:] if adv[0] == 'w' else adv
         head = (pred if adv[0] == 'w' else "") + verb + sym
-        text, shown = head + name, head + U.klit(a)
+        text, shown = head + "cvq", head + U.klit(a)
+        want = want_log = None
         r.log = []
         try:
-            want = norm(canon_x(exp_convergence(r, adv, pred, verb, val)))
+            want = norm(canon_x(exp_convergence(r, adv, pred, verb, val, STEP_CAP)))
             want_log = list(r.log)
         except Diverges:
             ctx.bump("convergence:definition-diverges")
-            # the definition never stops: the real code must not come back with a value either
-            n_div += 1
-            if n_div % (5 if ctx.tier == "quick" else 2) == 0:
-                r.log = []
-                st, v = guarded(lambda: r.k(text), 60000)
-                ctx.count(("conv-div", adv, pred, verb, a))
-                if st == "ok":
-                    integral = U.int_only(a) and a[0] == 'i'
-                    ctx.oracle_fail("converge:integer-isclose" if adv == ":~" and integral else f"diverges:{adv}:{verb}",
-                                    dict(text=shown), f"no value (no fixpoint / predicate still true after {STEP_CAP} steps)",
-                                    U.show(U.canon(v)), "the adverb returned although its definition does not terminate")
-            continue
         except Skip:
             ctx.bump("skip:outside-reference")
             continue
         except Exception:
             ctx.bump("skip:expansion-raises")
+            continue
+        list_pred = adv[0] == 'w' and r.pred_list
+        r.k["cvq"] = val          # (the expansion rebinds the rotating operand names)
+        if want is None:
+            # the definition does not stop within STEP_CAP steps: the real code must not come back early
+            n_div += 1
+            big_int = adv == ":~" and verb == "{x+1}" and a == U.I(100000)
+            if (n_div % (5 if ctx.tier == "quick" else 2) and not big_int) or verb in ("{x,x}", "{x*2}"):
+                # ({x,x} doubles its operand: memory, not steps; {x*2} wraps around at 64 bits)
+                continue
+            r.log = []
+            st, v = guarded(lambda: r.k(text), 60000)
+            ctx.count(("conv-div", adv, pred, verb, a))
+            ctx.bump("convergence:diverging-run")
+            if st != "ok":
+                continue
+            got = norm(U.canon(v))
+            try:      # it returned within a small budget: the definition, given as many steps, must return the same
+                want = norm(canon_x(exp_convergence(r, adv, pred, verb, val, 1500)))
+            except Exception:
+                want = None
+            if want is None or not U.veq(want, got):
+                key = "while:list-valued-predicate" if list_pred else f"diverges:{adv}:{pred}:{verb}:{_shape(a)}"
+                if adv == ":~" and a[0] == 'i' and got[0] == 'i' and abs(got[1]) >= 10 ** 5:
+                    key = "converge:integer-isclose"
+                ctx.oracle_fail(key, dict(text=shown),
+                                U.show(want) if want is not None else "no value (the definition does not terminate)",
+                                U.show(got), "the adverb returned although its definition does not stop there")
+                ctx.bump("oracle-deviation")
             continue
         r.log = []
         st, v = guarded(lambda: r.k(text))
@@ -693,10 +783,7 @@ def run_convergence(ctx, r, drv):
         ctx.bump(f"adverb:{adv}")
         if got[0] == 'E' or not U.veq(want, got):
             key = f"{adv}:{pred}:{verb}:{_shape(a)}"
-            if adv[0] == 'w' and got[0] == 'E' and pred in ("{[]}", "{x}", "{x<10}", "{x<100}", "{x<3}", "{x>0}", "{x<0}",
-                                                             "{x-10}") and a[0] == 'L':
-                key = "while:list-valued-predicate"
-            elif adv[0] == 'w' and pred == "{[]}":
+            if list_pred:
                 key = "while:list-valued-predicate"
             elif got[0] != 'E' and U.veq(want, got, kinds=False) and (mixed_numeric_array(want) or mixed_numeric_array(got)):
                 key = "mixed-numeric-level"
@@ -706,23 +793,26 @@ def run_convergence(ctx, r, drv):
                             "adverb result differs from its definition written out as separate applications")
             ctx.bump("oracle-deviation")
             continue
+        py_all = "py" in verb and (adv[0] != 'w' or "py" in pred)
         if "py" in head and got_log != want_log:
             ctx.oracle_fail(f"calllog:{adv}:{verb}", dict(text=shown), repr(want_log), repr(got_log),
                             "verb and predicate must be called exactly as the definition prescribes")
             continue
         lv, lp = LEAN_VERB.get(verb, verb), LEAN_VERB.get(pred, pred)
-        if drv and U.int_only(a) and lv in CONV_MODELLED and (adv[0] != 'w' or lp in CONV_MODELLED | {"{#x}", "{x}"}):
+        lean_ok = U.int_only(a) and lv in CONV_MODELLED and (adv[0] != 'w' or lp in CONV_MODELLED | {"{#x}", "{x}"}) \
+            and (a[0] == 'i' or not ("py" in head or lv == "{:[x>3;x;x+1]}"))
+        if drv and lean_ok:
             rep = drv.ask(f"advx {adv} {lv} {lp} {U.to_wire(a)}")
             impl = rep.split(" impl=")[1] if " impl=" in rep else ""
             if impl.startswith("ok:"):
                 iv = norm(U.from_wire(impl[3:].split(" log=")[0]))
                 if not U.veq(iv, got):
                     ctx.mismatch(f"Klong.C02 impl {adv} vs adverbs.py", dict(text=shown), U.show(iv), U.show(got))
-                elif "py" in head and lean_log(impl) != real_log_wire(got_log):
+                elif py_all and lean_log(impl) != real_log_wire(got_log):
                     ctx.mismatch(f"Klong.C02 impl {adv} call log vs adverbs.py", dict(text=shown),
                                  repr(lean_log(impl)), repr(real_log_wire(got_log)))
                 else:
-                    ctx.bump("model-agrees:convergence")
+                    ctx.bump("model-agrees:convergence" + (":calllog" if py_all else ""))
             elif impl.startswith("err"):
                 ctx.mismatch(f"Klong.C02 impl {adv} vs adverbs.py", dict(text=shown), "err / out of fuel", U.show(got))
 
@@ -732,9 +822,17 @@ def run(ctx):
     drv = Driver("c02") if getattr(ctx, "driver_ok", True) else None
     ctx.rule = ("adverb x verb (operators, lambdas, projections, logging Python callables) x operands of the closed "
                 "universe, plus two-adverb chains; each compared with its definitional expansion computed by separate "
-                "applications; distinct = distinct (adverb, verb, operands); non-trivial = the expansion makes >= 1 call")
+                "applications; distinct = distinct (adverb, verb, operands); non-trivial = the expansion makes >= 1 call. "
+                "Extension: Each-Index, Each-2 (unequal lengths, empty operands, strings), Each over dictionaries, "
+                "Converge / Scan-Converging / While / Scan-While (definition evaluated step by step with a step cap first; "
+                "the real code under a call-count budget; diverging definitions must not return), chains of 2..4 adverbs "
+                "against the nested lambda-wrapped form and the Lean chain machine")
     ctx.assumptions += ["operands are evaluated once and passed by name, so both sides see the same stored value",
-                        "reals by tolerance 1e-9 (floating-point summation order of ufunc.reduce is not modelled)"]
+                        "reals by tolerance 1e-9 (floating-point summation order of ufunc.reduce is not modelled)",
+                        "Converge's match of two iterates is Match (~) evaluated as a separate application: the tolerance "
+                        "for reals is the implementation's; truth of a While predicate is the conditional's (0, [], \"\" false)",
+                        "a definition that needs more than 130 steps (or values beyond 4000 members / 2^40) counts as diverging; "
+                        "if the real code then returns within its budget the definition is re-evaluated with 1500 steps"]
     cases = gen_cases(ctx) + gen_ext_cases(ctx)
     try:
         for adv, verb, args in cases:
@@ -841,7 +939,7 @@ def run(ctx):
             if len(ctx.samples) < 6 and ctx.evaluations % 211 == 1:
                 ctx.sample(dict(text=shown, expansion=U.show(want), real=U.show(got)))
         run_convergence(ctx, r, drv)
-        run_chains(ctx, r)
+        run_chains(ctx, r, drv)
         run_redefinition(ctx, r)
     finally:
         if drv:
